@@ -40,13 +40,17 @@ class Ctx:
         self.dk = {v['name']: v['idx'] for v in p.adt('DecodedKey')['variants']}
 
     # ---- impl index --------------------------------------------------------
+    TRAIT_METHOD = {'KeyboardLayout': 'map_keycode', 'ScancodeSet': 'advance_state'}
+
     def trait_impls(self, trait):
-        """[(self_str, self_ty, method path)] for every impl of the (local) trait."""
+        """[(self_str, self_ty, method path)] for every impl of the (local) trait - the method the properties speak about
+        (a trait may grow further methods; they are not that method)."""
         out = []
+        want = self.TRAIT_METHOD.get(trait.split('::')[-1])
         for im in self.facts['impls']:
             if im.get('trait') == trait:
                 for it in im['items']:
-                    if it['is_fn']:
+                    if it['is_fn'] and (want is None or it['name'] == want):
                         out.append((im['self_str'], im['self_ty'], it['path'], im['sp']))
         return out
 
